@@ -38,6 +38,7 @@ func checkC11(c *Check) {
 	c11Staleness(c)
 	c11Eviction(c)
 	c11OutcomeMatchesCase(c)
+	c11DestKeyIsTakeKey(c, "R10")
 
 	// the endpoint's permits: C03.R5 / C03.immut (acquire/release pairing and key agreement in the SMTP session) are
 	// this property's rules for the endpoint scope; they are re-evaluated here.
